@@ -195,3 +195,17 @@ ADDENDA5 = {
 for _pid, _txt in ADDENDA5.items():
     if _pid in PROPS:
         PROPS[_pid]["explanation"] += _txt
+
+ADDENDA6 = {
+    "C06": " C06.14 slice components are computed from the component of the same name with defaults only under a None test.",
+    "C14": " C14.7 slice components are computed from the component of the same name with defaults only under a None test.",
+    "C08": " C08.11 every returning path of a discovery handler visits the children.",
+    "C09": " C09.11 every returning path of an expander handler visits the children; C09.12 the relinking table is bound before macro bodies are visited.",
+    "C10": " C10.16 every returning path of a pass handler visits the children.",
+    "C13": " C13.14 every returning path of a used-qubit handler visits the children.",
+    "C18": " C18.10 idle twins of stretched gates are made for idle inputs only and named name + suffix.",
+    "C20": " C20.10 no __eq__ converts an operand before comparing.",
+}
+for _pid, _txt in ADDENDA6.items():
+    if _pid in PROPS:
+        PROPS[_pid]["explanation"] += _txt
